@@ -344,9 +344,28 @@ TEXT["C19"] = _t("spec/Throttle.tla is model-checked exhaustively (bound, satura
                  "TLC exhaustive on Throttle.tla + trace validation of the real Throttle (ThrottleTrace.tla) + observer rules on gateway traces")
 
 # on the life family the convergence predicate is part of C20: after a restart nothing may be served from the old cache
-PROPS["C20"] = dict(run=gateway_run(["life"], ["stop", "stopped", "sockClosed", "openRefused"], also=("C01",)))
-TEXT["C20"] = _t("Stop and loss of the messaging connection are injected at arbitrary steps of TLC-generated schedules (with requests, loads and evictions outstanding, gates held); the observer requires every socket closed, the cause on the stop channel, completion within the fake-time bounds, refusal while stopped, a working restart, and no panic.",
-                 TECH)
+def lifecycle_model(ctx):
+    """Exhaustive TLC run of spec/Lifecycle.tla (Start / Stop with concurrent callers and the MQ closed handler)."""
+    import os, shutil
+    from .common import SPEC, tlc, tlc_stats, MachineryError
+    d = os.path.join(ctx.workdir, "lifecycle-mc")
+    os.makedirs(d, exist_ok=True)
+    shutil.copy(os.path.join(SPEC, "Lifecycle.tla"), d)
+    with open(os.path.join(d, "Lifecycle.cfg"), "w") as f:
+        f.write('SPECIFICATION Spec\nCONSTANTS\n Callers = {"user", "mq", "user2"}\n MaxRuns = %d\n MaxConns = %d\n'
+                'INVARIANTS OneCause ClosedAfter NoAcceptWhileStopping OneStopper\nPROPERTIES Terminates\nCHECK_DEADLOCK FALSE\n' % ((3, 2) if ctx.tier == "quick" else (5, 4)))
+    p = tlc("Lifecycle.tla", d, [], timeout=900, workers=4)
+    if "No error has been found" not in p.stdout:
+        raise MachineryError("Lifecycle.tla does not satisfy its own properties (model bug):\n" + p.stdout[-2000:])
+    g, dist = tlc_stats(p.stdout)
+    cov = dict(states=dist, transitions=g, samples=[{"model": "spec/Lifecycle.tla three Stop callers (user, user2, MQ closed handler); invariants OneCause ClosedAfter NoAcceptWhileStopping OneStopper; liveness Terminates"}],
+               rule="exhaustive TLC on Lifecycle.tla; its invariants are the observer's stop rules (cause on the stop channel = cause of the winning Stop, every socket closed, nothing accepted while stopped) evaluated on the life family's traces", exhaustive=False)
+    return dict(coverage=cov, violations=[], level="model_checking", assumptions=["closing client sockets and the MQ client completes within their bounded timeouts"])
+
+
+PROPS["C20"] = dict(run=tables.combine(lifecycle_model, gateway_run(["life"], ["stop", "stopped", "sockClosed", "openRefused"], also=("C01",))))
+TEXT["C20"] = _t("spec/Lifecycle.tla (Start / Stop critical sections with three concurrent Stop callers incl. the MQ closed handler) is model-checked exhaustively: one cause per run on the stop channel and it is the winner's, no socket open and nothing accepted after a run ended, a winning Stop terminates. On the real gateway: Stop and loss of the messaging connection are injected at arbitrary steps of TLC-generated schedules (with requests, loads and evictions outstanding, gates held); the observer requires every socket closed, the cause on the stop channel, completion within the fake-time bounds, refusal while stopped, a working restart, and no panic.",
+                 "TLC exhaustive on Lifecycle.tla + TLC-generated stop / connection-loss schedules replayed on the real gateway, traces validated by the observer spec")
 
 PROPS["C14"] = dict(run=tables.combine(tables.tables_run(["subjects"], "subject hygiene"),
                                        gateway_run(["access", "gc"], ["mreq", "msub"])))
